@@ -2,8 +2,5 @@
 # every kept seeded change against every registered check (seed 0, quick); results in seeded/<id>/seedtest_result.json
 cd "$(dirname "$0")/.."
 ( cd coq && coq_makefile -f _CoqProject -o Makefile >/dev/null && timeout 3000 make -j16 >/dev/null 2>&1 )
-for d in seeded/*/; do
-  [ -f $d/patch.diff ] || continue
-  /venv/bin/python harness/seedtest.py $d --all --jobs 8 --skip-tests > $d/matrix.txt 2>&1
-  echo "done $d"
-done
+ls -d seeded/*/ | while read d; do [ -f $d/patch.diff ] && echo $d; done | \
+  xargs -P 2 -I{} sh -c '/venv/bin/python harness/seedtest.py {} --all --jobs 8 --skip-tests > {}/matrix.txt 2>&1; echo "done {}"'
